@@ -55,6 +55,13 @@ def cases(chk):
         if sum(p) % 3 == 0:
             cs.append({"gen": "fast", "via": "main", "cfg": "f_tri", "jds": [(d,) for d in p]})
             cs.append({"gen": "motifs", "via": "direct", "cfg": "c_path", "jds": [(d,) for d in p]})
+    # histories: the exact law must also hold for the second graph produced by one generator object (same sequence again)
+    for p in ([1, 1, 1, 1], [2, 1, 1], [2, 2]):
+        for gen, cname in (("fast", "f_edge"), ("motifs", "c_bare"), ("network", "f_edge")):
+            cs.append({"gen": gen, "via": "direct", "cfg": cname, "jds": [(d,) for d in p], "pre_jds": [(d,) for d in p], "pre_seed": 11})
+    cs.append({"gen": "fast", "via": "direct", "cfg": "f_edge_tri", "jds": [(1, 1), (1, 1), (1, 1), (1, 0)],
+               "pre_jds": [(1, 1), (1, 1), (1, 1), (1, 0)], "pre_seed": 5})
+    cs.append({"gen": "fast", "via": "main", "cfg": "f_edge_tri", "jds": [(2, 2), (1, 1), (1, 0)], "pre_jds": [(1, 1), (1, 1), (0, 1)], "pre_seed": 5})
     # two-topology products: independence across topologies (joint table is a product)
     cs.append({"gen": "fast", "via": "direct", "cfg": "f_edge_tri", "jds": [(1, 1), (1, 1), (1, 1), (1, 0)]})
     cs.append({"gen": "fast", "via": "direct", "cfg": "f_edge_tri", "jds": [(2, 1), (1, 2), (1, 0)]})
